@@ -1,6 +1,6 @@
 (* C01 -- The partition log is a gap-free, ordered, immutable record of what was appended.
    Only property theorems, each closed by [exact] of a lemma from Log.Refine / Log.Proofs. *)
-From LB Require Import Base.Prelude Log.Model Log.Proofs Log.Refine.
+From LB Require Import Base.Prelude Log.Model Log.Proofs Log.Refine Codec.Message Codec.MessageProofs.
 Open Scope Z_scope.
 
 (* Every log reachable by any history of appends, message-set appends that continue the log,
@@ -56,6 +56,13 @@ Theorem C01_truncate_removes_suffix : forall l o, wf l ->
   wf (truncate l o) /\ all_recs (truncate l o) = filter (lt_off o) (all_recs l) /\ l_hw (truncate l o) = l_hw l.
 Proof. exact truncate_refines. Qed.
 Print Assumptions C01_truncate_removes_suffix.
+
+(* Reading the stored form of a message returns exactly the key, value and headers that were
+   stored -- nil and empty distinguished -- for every message within the encoder's own limits. *)
+Theorem C01_message_roundtrip : forall m, message_wf m ->
+  key_of (encode m) = g_key m /\ value_of (encode m) = g_value m /\ headers_of (encode m) = g_headers m.
+Proof. exact message_roundtrip. Qed.
+Print Assumptions C01_message_roundtrip.
 
 (* non-vacuity: a concrete history with two rolls, a truncation inside a segment and a reopen *)
 Example C01_example :
